@@ -678,7 +678,7 @@ def main(ck):
         "method dispatch, argument passing into put_<p>($x), echo/tag helper, string concatenation and Channel send/receive of the marker string (concurrent groups): assumed to deliver values unchanged",
         "concurrency: the theorems quantify over all histories, and every interleaving of operations is a history; interleavings INSIDE one operation are not modelled — for them the evidence is the spawn-based runs under the race detector only",
         "decl_unchanged is a theorem about the model's get_property; that the Go GetProperty / SetValue paths leave the shared declaration alone is what the tie tests (a mutation that writes it is caught by the tie, see DESIGN)",
-        "not modelled: inheritance from / of generic classes, default values of typed members, static members and static methods with T-typed parameters, compound assignment, the [] store path on objects (no type check for any class: C07), a class with a promoted constructor parameter created without its argument",
+        "not modelled: inheritance from / of generic classes, default values of typed members, static members and static methods with T-typed parameters, compound assignments other than `.=`, the [] store path on objects (no type check for any class: C07), a class with a promoted constructor parameter created without its argument",
     ]
     ck.prove()
     binary, out = ck.go_build("c19")
